@@ -242,6 +242,11 @@ func EvalCase(idx int, c *Case, opt Options) CaseResult {
 				ds = append(ds, compareInterp(c, mref, in, mode)...)
 			}
 		}
+		if mi == 0 && c.Scale != nil {
+			sds, n := scaledRuns(c, opt)
+			ds = append(ds, sds...)
+			cr.Executions += n
+		}
 		cr.Disagreements = append(cr.Disagreements, ds...)
 		if mi == 0 || len(ds) > 0 {
 			if opt.Verbose || len(ds) > 0 {
@@ -255,6 +260,58 @@ func EvalCase(idx int, c *Case, opt Options) CaseResult {
 		}
 	}
 	return cr
+}
+
+// scaledRuns replays a family-A case with amounts m*D + amt far beyond the spec's integers (inside
+// the 64-bit machine word and above it): expected postings p1 + (m-1)*(p2-p1).
+func scaledRuns(c *Case, opt Options) ([]Disagreement, int) {
+	var ds []Disagreement
+	execs := 0
+	sc := c.Scale
+	if sc == nil || len(c.Prog) != 1 || c.Prog[0].K != "send" || c.Prog[0].Amt < 0 || len(sc.P1) != len(sc.P2) {
+		return nil, 0
+	}
+	for _, mu := range Multipliers(sc.Den, c.Prog[0].Amt) {
+		if mu.M.Sign() <= 0 {
+			continue
+		}
+		amount := new(big.Int).Add(new(big.Int).Mul(mu.M, big.NewInt(int64(sc.Den))), big.NewInt(int64(c.Prog[0].Amt)))
+		want := make([]RPosting, len(sc.P1))
+		m1 := new(big.Int).Sub(mu.M, big.NewInt(1))
+		for i := range sc.P1 {
+			n := new(big.Int).Mul(m1, big.NewInt(int64(sc.P2[i].N-sc.P1[i].N)))
+			n.Add(n, big.NewInt(int64(sc.P1[i].N)))
+			if c.Inject == "scaled-part" && i == 0 {
+				n.Add(n, big.NewInt(1))
+			}
+			want[i] = RPosting{S: sc.P1[i].S, D: sc.P1[i].D, As: sc.P1[i].As, N: n.String()}
+		}
+		prog := []Stmt{c.Prog[0]}
+		prog[0].AmtBig = amount.String()
+		for _, mode := range opt.Modes {
+			rd := Render(prog, mode)
+			runs := []Result{RunMachineDirect(rd.Script, rd.Vars, c.Bal, StoreNormal, "")}
+			if opt.WithAdapter {
+				runs = append(runs, RunMachineAdapter(rd.Script, rd.Vars, c.Bal, StoreNormal))
+			}
+			for _, r := range runs {
+				execs++
+				switch {
+				case r.Panic != "":
+					ds = append(ds, Disagreement{Kind: "robust/panic/" + r.Runtime, Mode: mode, Detail: firstLines(r.Panic, 6)})
+				case r.Hang:
+					ds = append(ds, Disagreement{Kind: "robust/hang/" + r.Runtime, Mode: mode, Detail: "no result"})
+				case !r.Ok:
+					ds = append(ds, Disagreement{Kind: "machine-vs-spec/scaled-" + mu.Label + "/unexpected-error", Mode: mode,
+						Detail: fmt.Sprintf("amount %s: spec: %s; %s: error %q", amount, PostingsString(want), r.Runtime, r.Err)})
+				case !SamePostings(want, r.Posts):
+					ds = append(ds, Disagreement{Kind: "machine-vs-spec/scaled-" + mu.Label + "/postings", Mode: mode,
+						Detail: fmt.Sprintf("amount %s: spec: %s; %s: %s || script: %s", amount, PostingsString(want), r.Runtime, PostingsString(r.Posts), strings.ReplaceAll(rd.Script, "\n", "\\n "))})
+				}
+			}
+		}
+	}
+	return ds, execs
 }
 
 // Signature of a disagreement for known-findings matching: kind + the feature of the program that
